@@ -407,9 +407,11 @@ static int filt_generic(int k, cfg_opt_t *opt)
 {
 	int i;
 
+	/* "non-zero = leave out": the verdicts are not all 1 - a filter written as `return strcmp(...)` or `return -1`
+	 * hides an option just as well */
 	for (i = 0; i < filt_n[k]; i++)
 		if (!strcmp(filt_names[k][i], opt->name))
-			return 1;
+			return (i % 3 == 0) ? -1 : (i % 3 == 1) ? 1 : (int)0x40000000;
 	return 0;
 }
 #define FILT(k) static int filt##k(cfg_t *cfg, cfg_opt_t *opt) { (void)cfg; return filt_generic(k, opt); }
